@@ -80,6 +80,16 @@ fn gen_value(rng: &mut Rng, depth: usize, allow_null: bool) -> KValue {
     }
 }
 
+fn contains_null(v: &KValue) -> bool {
+    match v {
+        KValue::Null => true,
+        KValue::List(l) => l.data().iter().any(contains_null),
+        KValue::Tuple(t) => t.iter().any(contains_null),
+        KValue::Map(m) => m.data().values().any(contains_null),
+        _ => false,
+    }
+}
+
 /// Structural comparison at the host boundary. Sequences are compared as sequences (list == tuple: the documented normal
 /// form is that sequences come back as tuples), maps order-insensitively (as the language's own == does), numbers by
 /// kind and bits.
@@ -277,6 +287,7 @@ pub fn run(seed: u64, n_trees: u64, n_rust: u64, corruptions_per_doc: usize) -> 
     let mut samples: Vec<Value> = Vec::new();
     let mut corruptions = 0u64;
     let mut corrupt_errors = 0u64;
+    let mut toml_null_refusals = 0u64;
     let mut add = |faults: &mut Vec<Value>, v: Value| {
         if faults.len() < 100 {
             faults.push(v);
@@ -285,12 +296,14 @@ pub fn run(seed: u64, n_trees: u64, n_rust: u64, corruptions_per_doc: usize) -> 
     for t in 0..n_trees {
         for (name, module) in &modules {
             let toml = *name == "toml";
-            // TOML: a map at the top, no null anywhere
+            // TOML: a map at the top, no null anywhere - except in every fourth tree, where nulls are allowed: TOML cannot
+            // represent them, so either to_string refuses the value or (never) the round trip gives it back
+            let toml_nulls = toml && t % 4 == 3;
             let value = if toml {
                 let m = KMap::new();
                 for _ in 0..rng.below(5) {
                     let k = KEYS[rng.below(KEYS.len() as u64) as usize];
-                    m.insert(k, gen_value(&mut rng, 3, false));
+                    m.insert(k, gen_value(&mut rng, 3, toml_nulls));
                 }
                 KValue::Map(m)
             } else {
@@ -301,6 +314,10 @@ pub fn run(seed: u64, n_trees: u64, n_rust: u64, corruptions_per_doc: usize) -> 
                 Err(p) => {
                     fault_count += 1;
                     add(&mut faults, json!({"rule": "panic", "format": name, "detail": p.signature, "value": display(&mut koto, &value)}));
+                    continue;
+                }
+                Ok(Err(_)) if toml && contains_null(&value) => {
+                    toml_null_refusals += 1;
                     continue;
                 }
                 Ok(Err(e)) => {
@@ -414,6 +431,7 @@ pub fn run(seed: u64, n_trees: u64, n_rust: u64, corruptions_per_doc: usize) -> 
         }
     }
     stats.insert("out_of_range_documents".into(), json!(out_of_range));
+    stats.insert("toml_values_with_null_refused".into(), json!(toml_null_refusals));
     // "nested arbitrarily": a number wrapped D times in one-element lists (TOML: one-entry maps) comes back unchanged
     let mut deep = 0u64;
     for depth in [8usize, 32, 64, 100, 120, 126, 127, 128, 129, 160, 200, 300] {
